@@ -28,7 +28,7 @@ var errGeneric = errors.New("backend unavailable: connection reset by peer")
 var errNames = []string{"notfound", "toobig", "timedout", "mempool", "seq", "deadline", "future", "futurestr",
 	"canceled", "ctxcanceled", "ctxdeadline", "generic"}
 
-var wrapNames = []string{"", "pre", "post", "join", "deep"}
+var wrapNames = []string{"", "pre", "post", "join", "deep", "cause-deadline", "join-deadline"}
 
 func baseErr(name string) error {
 	switch name {
@@ -71,6 +71,17 @@ func mkErr(name, wrap string) error {
 		return errors.Join(errors.New("attempt 1 failed"), e)
 	case "deep":
 		return fmt.Errorf("rpc: %w", fmt.Errorf("celestia: %w", e))
+	case "cause-deadline":
+		// "gave up waiting for inclusion": the DA error with the expired deadline as its cause
+		if e == context.DeadlineExceeded {
+			return e
+		}
+		return fmt.Errorf("%w: %w", e, context.DeadlineExceeded)
+	case "join-deadline":
+		if e == context.DeadlineExceeded {
+			return e
+		}
+		return errors.Join(e, context.DeadlineExceeded)
 	}
 	return e
 }
